@@ -217,6 +217,12 @@ func packDomainName(s string, msg []byte, off int, compression compressionMap, c
 		return len(msg), ErrFqdn
 	}
 
+	// The wire form is one octet longer than the unescaped text, so only a
+	// long text can exceed the limit.
+	if ls >= maxDomainNameWireOctets && escapedNameLen(s)+1 > maxDomainNameWireOctets {
+		return len(msg), ErrLongDomain
+	}
+
 	// Each dot ends a segment of the name.
 	// We trade each dot byte for a length byte.
 	// Except for escaped dots (\.), which are normal dots.
